@@ -16,8 +16,17 @@ func VerifC17RLE() {
 	spp := []uint16{0, 1, 3, 4, 5}[vrt.Choice("spp", 0, 4)]
 	info := &imagetypes.FrameInfo{Width: uint16(vrt.Choice("w", 0, 2)), Height: uint16(vrt.Choice("h", 0, 2)), BitsAllocated: ba, BitsStored: 8, HighBit: 7,
 		SamplesPerPixel: spp, PlanarConfiguration: vrt.U16("planar")}
-	L := []int{0, 1, 3, 4, 12}[vrt.Choice("len", 0, 4)]
-	src := vrt.Bytes("px", L)
+	L := []int{0, 1, 3, 4, 12, 16, 64}[vrt.Choice("len", 0, 6)]
+	var src []byte
+	if L <= 12 {
+		src = vrt.Bytes("px", L)
+	} else {
+		// long buffers only matter for the plane-count limit: concrete contents
+		src = make([]byte, L)
+		for i := range src {
+			src[i] = byte(i * 7)
+		}
+	}
 	in := &vPD{info: info}
 	in.frames = append(in.frames, src)
 	out := &vPD{info: info}
